@@ -10,6 +10,7 @@ from vlib import gen_loads as gl
 from vlib import gen_physical as gp
 from vlib import surrogate
 from vlib.core import Sub, Violation, guarded
+from vlib.core import jhash as core_jhash
 
 PROPERTY = "C20"
 RULE = (
@@ -18,6 +19,8 @@ RULE = (
     "x rho in both modes, system flow equal, m_k x N_k constant along a candidate list under SYSTEM flow. pairs: the same field "
     "evaluated through calculate_excess of a real search object once with (BOREHOLE, v) and once with (SYSTEM, N v), all pipe "
     "types, surrogate long-time g (L2 seam): mass flow, R_b*, max/min EFT and every simulated temperature equal (1e-9 K). "
+    "respec: on ONE manager the flow is specified twice -- (BOREHOLE, v), find_design -> N, then (SYSTEM, N v), find_design -- and "
+    "the returned GHE must carry system flow / its borehole count as per-borehole flow and equal a fresh manager's design. "
     "Non-trivial = N >= 2; distinct by (class, pipe, fluid, N) for split and by case hash for pairs."
 )
 ASSUMPTIONS = ["L2 seam: calc_g_func_for_multiple_lengths replaced by the surrogate family in the check process (pairs)"]
@@ -148,6 +151,67 @@ def pair_case(draw):
     return c
 
 
+def check_respec(case, rec):
+    """one manager, the flow specification given twice: (BOREHOLE, v), design -> N, then (SYSTEM, N v) on the same manager;
+    the returned GHE must carry a per-borehole mass flow of (system flow / its own borehole count) / 1000 x rho in both runs"""
+    from vlib import gen_scenarios as gs
+
+    first = dict(case, flow_type="BOREHOLE", flow=case["bhe"]["flow"])
+    out1 = gs.run_design(first, "L2")
+    if out1.error is not None:
+        rec.cls(f"no_design({type(out1.error).__name__})")
+        return
+    mgr = out1.manager
+    n1 = len(out1.coords)
+    rho = float(out1.search.ghe.bhe.fluid.rho)
+    v = first["flow"]
+    m1 = float(out1.search.ghe.bhe.m_flow_borehole)
+    if abs(m1 - v / 1000.0 * rho) > 1e-12 * m1:
+        raise Violation(f"BOREHOLE flow {v} L/s: returned GHE has {m1!r} kg/s per borehole, expected {v / 1000.0 * rho!r}",
+                        sig={"kind": "respec_mass_flow", "step": "first"})
+    order = case.get("respec", "system_after_borehole")
+    with gs.layer_ctx("L2"), warnings.catch_warnings():
+        warnings.simplefilter("ignore")
+        import contextlib
+        import io
+
+        with contextlib.redirect_stdout(io.StringIO()):
+            guarded(mgr.set_design, flow_rate=v * n1, flow_type_str="system", what="set_design (second specification)")
+            try:
+                mgr.find_design()
+            except ValueError:
+                rec.cls("second_run_no_design(ValueError)")
+                return
+    ghe2 = mgr._search.ghe
+    n2 = int(ghe2.nbh)
+    m2 = float(ghe2.bhe.m_flow_borehole)
+    exp2 = v * n1 / n2 / 1000.0 * rho
+    if abs(m2 - exp2) > 1e-12 * exp2:
+        raise Violation(f"after re-specifying the flow as SYSTEM {v * n1} L/s on the same manager the returned {n2}-borehole GHE has "
+                        f"{m2!r} kg/s per borehole, expected {exp2!r}", sig={"kind": "respec_mass_flow", "step": "second"})
+    if abs(float(ghe2.V_flow_system) - v * n1) > 1e-12 * v * n1:
+        raise Violation(f"system flow {float(ghe2.V_flow_system)!r} after re-specification, expected {v * n1!r}",
+                        sig={"kind": "respec_system_flow"})
+    # and it must equal what a fresh manager gives for the second specification
+    fresh_scn = dict(case, flow_type="SYSTEM", flow=v * n1)
+    gs._LOADS[core_jhash(fresh_scn)] = gs.loads_for(first)  # identical loads (the calibration depends on the flow otherwise)
+    fresh = gs.run_design(fresh_scn, "L2")
+    if fresh.error is None and (fresh.coords != [(float(x), float(y)) for x, y in ghe2.gFunction.bore_locations] or
+                                abs(fresh.H - float(ghe2.bhe.b.H)) > 1e-9):
+        raise Violation("re-specifying the flow on a used manager gives a different design than a fresh manager",
+                        sig={"kind": "respec_differs_from_fresh"})
+    rec.cls("method_" + case["method"])
+    rec.nontriv((case["method"], n1, n2, round(v, 6)))
+    rec.sample({"method": case["method"], "v": v, "N_first": n1, "N_second": n2, "m_flow_second": m2})
+
+
+def search_respec(ctx):
+    from vlib import gen_scenarios as gs
+
+    gs.run_stratified(ctx, ctx.total(12, 160), outcomes=["inside"],
+                      methods=["NEARSQUARE", "RECTANGLE", "BIRECTANGLE", "BIZONEDRECTANGLE", "BIRECTANGLECONSTRAINED", "ROWWISE"])
+
+
 def search_split(ctx):
     ctx.given(split_case(), ctx.n(64, 2400))
 
@@ -159,4 +223,5 @@ def search_pairs(ctx):
 SUBS = [
     Sub("split", check_split, search_split, shards=lambda t: 4),
     Sub("pairs", check_pair, search_pairs, shards=lambda t: 16),
+    Sub("respec", check_respec, search_respec, shards=lambda t: 12),
 ]
